@@ -233,7 +233,7 @@ def run(ctx):
     t0 = time.time()
     # --- G ---------------------------------------------------------------------------------------
     gens = ([("IspecGen_all8_quick.cfg", "all8", None), ("IspecGen_quick.cfg", "exhaustive", None),
-             ("IspecSim.cfg", "simulated", 640)] if quick else
+             ("IspecSim.cfg", "simulated", 480)] if quick else
             [("IspecGen_all8_thorough.cfg", "all8", None), ("IspecGen_thorough.cfg", "exhaustive", None),
              ("IspecSim.cfg", "simulated", 9600)])
     for cfg, kind, sim in gens:
